@@ -132,12 +132,28 @@ func methodSet(methods []interfaceMethod, n *node, nodes nodeMap) ([]interfaceMe
 		if err != nil {
 			return methods, fmt.Errorf("could not find superclass %#x of %s", s.Id(), n)
 		}
+		if hasInterfaceMethods(methods, sn.Id()) {
+			// Already reached through another superclass (diamond
+			// inheritance): its methods must be listed only once.
+			continue
+		}
 		methods, err = methodSet(methods, sn, nodes)
 		if err != nil {
 			return methods, err
 		}
 	}
 	return methods, nil
+}
+
+// hasInterfaceMethods reports whether methods already holds the methods
+// declared by the interface with the given ID.
+func hasInterfaceMethods(methods []interfaceMethod, id uint64) bool {
+	for _, m := range methods {
+		if m.Interface.Id() == id {
+			return true
+		}
+	}
+	return false
 }
 
 // Tag types
